@@ -115,7 +115,6 @@ impl ScriptedRead {
             self.log.push((0, 0));
             return Ok(0);
         }
-        self.fill_poison(buf);
         // temporary EOF?
         while self.stop_idx < self.stops.len() && self.stops[self.stop_idx] < self.pos {
             self.stop_idx += 1;
@@ -125,6 +124,8 @@ impl ScriptedRead {
             let s = self.stops[self.stop_idx];
             if s == self.pos && s < self.data.len() {
                 self.stalled = true;
+                let pe = buf.len().min(48);
+                self.fill_poison(&mut buf[..pe]);
                 self.log.push((buf.len(), 0));
                 return Ok(0);
             }
@@ -132,6 +133,10 @@ impl ScriptedRead {
         }
         let want = if idx < self.chunks.len() { self.chunks[idx] } else { self.tail };
         let n = want.min(buf.len()).min(limit);
+        // poison the 48 bytes that follow the delivered ones (a legal thing for a Read impl to do):
+        // any dependence on bytes beyond the valid end of the buffer then shows up in the results
+        let pe = buf.len().min(n + 48);
+        self.fill_poison(&mut buf[n..pe]);
         buf[..n].copy_from_slice(&self.data[self.pos..self.pos + n]);
         self.pos += n;
         if self.log.len() < 4096 {
